@@ -203,6 +203,108 @@ def execute(acc, g, case):
         sched.shutdown()
 
 
+def execute_concurrent(acc, case):
+    """Several requests in their dispatch threads at the same time (random-walk schedule with line-level preemption inside
+    bromelia.py, one thread optionally parked at its k-th line): every request must still get exactly one answer with its
+    own identifiers, from exactly its own handler invocation."""
+    import bromelia.bromelia as BB
+    from bromelia.base import DiameterAnswer, DiameterMessage
+    from bromelia.avps import SessionIdAVP, ResultCodeAVP, OriginHostAVP, OriginRealmAVP
+    from bvm import node as N
+    rng = random.Random(case["seed"])
+    sched = vsched.Sched(seed=case["seed"], strategy="rw", p=case["p"], max_steps=300_000, wall_s=60)
+    wit = {"case": case}
+    h = lp = None
+    try:
+        h = appnode.AppHarness(sched, ["S6a", "Gx"])
+        app = h.app
+        plan, handled = {}, []
+
+        def make(code):
+            def handler(request):
+                k = N.marker_of(R.decode(request.dump())[0])
+                handled.append((code, k))
+                out = plan[k]
+                if out == "raise":
+                    raise ValueError("handler failure %d" % k)
+                if out == "none":
+                    return None
+                a = DiameterAnswer(command_code=code, application_id=0)
+                a.append(SessionIdAVP(b"handler;0;%d" % k))
+                a.append(ResultCodeAVP(2001 if out == "answer" else 5012))
+                a.append(OriginHostAVP(appnode.LOCAL_HOST))
+                a.append(OriginRealmAVP(appnode.LOCAL_REALM))
+                return a
+            handler.__name__ = "conc_%d" % code
+            return handler
+        for app_id in (16777251, 16777238):
+            for code in (316, 272):
+                app.route(application_id=app_id.to_bytes(4, "big"), command_code=code.to_bytes(3, "big"))(make(code))
+        lp = vsched.LinePreemption(sched, files={BB.__file__}).__enter__()
+        n = case["n"]
+        reqs = {}
+        for k in range(1, n + 1):
+            plan[k] = rng.choice(["answer", "answer", "answer-5012", "raise", "none"])
+            lm = N.app_request(k, app=rng.choice([16777251, 16777238]), code=rng.choice([316, 272]), host="peer0.remote.example", realm="remote.example",
+                               dest_host=appnode.LOCAL_HOST, dest_realm=appnode.LOCAL_REALM)
+            lm.hbh, lm.e2e = 0x7000 + k, 0x9000 + k * 3
+            reqs[k] = lm
+        if case.get("park") is not None:
+            sched.parks.append({"task": "recv_request_1", "nth": case["park"], "timeout": 0.5,
+                                "release": lambda: all(t.done or t.why == "parked" for t in sched.tasks if t.name.startswith("recv_request_"))})
+        thrs = [app.create_message_thread(DiameterMessage.load(R.encode(reqs[k]))[0]) for k in range(1, n + 1)]
+        finished = sched.run_until(lambda: all(t.done for t in thrs), 10.0, "dispatches")
+        sched.run_until(lambda: False, 0.01, "drain")
+        acc.counters["concurrent_dispatch_executions"] += 1
+        if sched.parked_at:
+            acc.counters["dispatch_thread_parked"] += 1
+        sent = [m for _, m in h.sent()]
+        got = {}
+        for m in sent:
+            lm = R.decode(m.dump())[0]
+            got.setdefault((lm.hbh, lm.e2e), []).append(lm)
+        wit.update({"plan": plan, "handled": handled, "sent": [(lm.hbh, lm.e2e) for v in got.values() for lm in v], "schedule": sched.schedule_hash(),
+                    "choices": sched.choices[:3000]})
+        if not finished:
+            acc.violation("dispatch-never-finishes:concurrent", "dispatch tasks still running: %s" % sched.blocked_report(), wit)
+            return
+        for k, lm in reqs.items():
+            mine = got.get((lm.hbh, lm.e2e), [])
+            if len(mine) != 1:
+                acc.violation("request-answered-%d-times:concurrent-%s" % (len(mine), plan[k]), "request %d (%s) got %d answers while %d requests were dispatched at once" % (k, plan[k], len(mine), n), wit)
+                return
+            a = mine[0]
+            sid = [x.value for x in a.avps if x.code == 263]
+            want_sid = [x.value for x in lm.avps if x.code == 263]
+            if a.flags & 0x80 or a.app_id != lm.app_id or a.code != lm.code or sid != want_sid:
+                acc.violation("answer-identity-wrong:concurrent", "request %d: answer flags %#x app %d code %d session %r" % (k, a.flags, a.app_id, a.code, sid), wit)
+                return
+            if plan[k] in ("raise", "none"):
+                rc = [x.value for x in a.avps if x.code == 268]
+                if rc != [(5012).to_bytes(4, "big")]:
+                    acc.violation("fallback-answer-content:concurrent", "request %d (%s): fallback Result-Code %r" % (k, plan[k], rc), wit)
+                    return
+        if sorted(x[1] for x in handled) != sorted(reqs):
+            acc.violation("wrong-handler-dispatched", "handler invocations %s for requests 1..%d dispatched at once" % (sorted(handled), n), wit)
+            return
+        acc.counters["answers_judged"] += n
+    except vsched.DeadlockError as ex:
+        acc.violation("deadlock-in-dispatch", "deadlock: %s" % ex, dict(wit, stacks=sched.stacks()))
+    except vsched.WallClock as ex:
+        acc.inconclusive.append("%s (case %r)" % (ex, case))
+    except vsched.StepBudget as ex:
+        acc.violation("spin-in-dispatch", "%s; %s" % (ex, sched.blocked_report()), wit)
+    finally:
+        if lp is not None:
+            lp.__exit__()
+        if h is not None:
+            h.cleanup()
+        cov = sched.coverage()
+        sched.shutdown()
+    acc.evaluations += 1
+    acc.sigs.add(harness.sig_hash("conc/%d/%s" % (case["n"], cov["schedule"])))
+
+
 def run_batch(b):
     acc = harness.Acc()
     if b.get("real"):
@@ -212,7 +314,10 @@ def run_batch(b):
         return acc
     g = Gen(b["seed"])
     for case in b["cases"]:
-        execute(acc, g, case)
+        if case.get("concurrent"):
+            execute_concurrent(acc, case)
+        else:
+            execute(acc, g, case)
     return acc
 
 
@@ -226,6 +331,10 @@ def main(tier, seed):
         k = rng.choice([1, 2, 3, 4])
         cases.append({"seed": seed * 211 + i, "apps": rng.sample(names, k), "codes_per_app": rng.choice([1, 2, 4]),
                       "outcomes": OUTCOMES if rng.random() < 0.5 else rng.sample(OUTCOMES, 4)})
+    for i in range(40 if q else 3000):
+        cases.append({"concurrent": True, "seed": seed * 223 + i, "n": rng.choice([2, 3, 4, 6]), "p": rng.choice([0.05, 0.2, 0.5])})
+    for k in range(0, 60, 2 if q else 1):
+        cases.append({"concurrent": True, "seed": seed * 229 + k, "n": 3, "p": 0.02, "park": k})
     nb = 16 if q else 64
     batches = [{"cases": cases[i::nb], "seed": seed * 17 + i} for i in range(nb)]
     for i in range(3 if q else 40):
@@ -237,7 +346,7 @@ def main(tier, seed):
                           ["workers are in-process (fake manager, never started as processes); the connection layer below a Worker is a recording stub",
                            "requests without Session-Id or origin AVPs are dispatched and observed, not judged (the fallback cannot be built for them)",
                            "a handler raising one of the library's BaseException-derived errors is outside the statement's 'standard exception' and is not generated"],
-                          t0, require_counters=("dispatches", "fallbacks_judged", "answers_judged", "real_loopback_ok"))
+                          t0, require_counters=("dispatches", "fallbacks_judged", "answers_judged", "real_loopback_ok", "concurrent_dispatch_executions", "dispatch_thread_parked"))
 
 
 def replay(w):
